@@ -16,7 +16,8 @@ FIXES = set()          # no repaired defect is assumed by the specification
 PID = 77
 IO_ORDER = ["rchar", "wchar", "syscr", "syscw", "read_bytes", "write_bytes", "cancelled_write_bytes"]
 IO_FIELDS = ["read_count", "write_count", "read_bytes", "write_bytes", "read_chars", "write_chars"]
-JUNK = {"blank": b"", "spaces": b"  \t ", "nocolon": b"garbage", "nospace": b"key:5"}
+JUNK = {"blank": b"", "spaces": b"  \t ", "nocolon": b"garbage", "nospace": b"key:5",
+        "twopairs": b"(cgroup) read_bytes: 0 write_bytes: 0", "hashname": b"# rchar: 0", "slashname": b"prev/syscw: 9"}
 # symbolic offsets of the specification -> real offsets (loff_t: 0 .. 2^63-1)
 POSVALS = {0: 0, 1: 1, 2: 4096, 3: 2 ** 31 - 1, 4: 2 ** 31, 5: 2 ** 32 + 5, 6: 10 ** 9, 7: 2 ** 53 + 1,
            8: 2 ** 62, 9: 12345678901234, 10: 2 ** 63 - 2, 11: 2 ** 63 - 1, 12: 2 ** 32, 13: 2 ** 53 + 1,
